@@ -43,6 +43,16 @@ def handle (op : String) (args : List String) (impl : String) : Verdict :=
         tag := "inv:" ++ mode ++ (if p ≤ 3 then ":p<=3" else if p ≤ 5 then ":p<=5" else ":p>5") ++ (if a.int < 0 then ":neg" else ":pos"),
         trivial := false }
     | _, _, _, _, _ => badInput "inv args"
+  | "oneover", [form, a, guess] =>
+    -- `1 / x` with a primitive one: inverse() with the configured default context
+    match parseDec? a, parseDec? guess, parseDec? impl with
+    | some a, some g, some r =>
+      let p := Generated.buildDefaultPrecision
+      let model := a.inverseCtx estF64 p Generated.buildDefaultMode g
+      let (ok, why) := if a.isOne then (Spec.valueEq r ⟨1, 0⟩, "one") else invOK a p r
+      { model := showOptDec model, mi := model == some r, si := ok, sm := true, note := why,
+        tag := "oneover:" ++ form, trivial := false }
+    | _, _, _ => badInput "oneover args"
   | "mirror", [a, _p, _mode, _mmode] =>
     match parseDec? a, impl.splitOn "|" with
     | some _, [x, y] =>
